@@ -15,6 +15,8 @@ def hexb(b):
 def parse_hex(tok):
     """B<hex> = the bytes; P<len>:<hex> = the pattern repeated / truncated to <len> bytes (compact form for large
     periodic inputs, understood by the harness and the model driver alike)."""
+    if "+" in tok:                      # several segments joined by '+': concatenation
+        return b"".join(parse_hex(t) for t in tok.split("+"))
     if tok[0] == "P":
         n, pat = tok[1:].split(":", 1)
         n = int(n)
@@ -498,7 +500,7 @@ def compress_inputs(rng, tier, kind, hdr_flag_small):
         add(b, "exhaustive-2-letters")
     for b in small_alphabet_exhaustive((0x00, 0x7f, 0xff), l3):
         add(b, "exhaustive-3-letters")
-    # every length 0..600 of a run, of a period-2 and of a period-19 pattern (token/flag-group and length-form boundaries)
+    # every length 0..299 (thorough 0..699) of a run; every third length of a period-2 and of a period-19 pattern (token/flag-group and length-form boundaries)
     top = 300 if tier == "quick" else 700
     for n in range(0, top):
         add(b"\x55" * n, "all-lengths-run")
@@ -526,6 +528,24 @@ def compress_inputs(rng, tier, kind, hdr_flag_small):
     # implementation + oracle only (seeded change C08-4: a size guard `>= 0xFFFFFF`)
     for n, pat in size_boundary_inputs(kind, rng):
         cases.append(Case("%s 0 %s" % (kind, ptok(n, pat)), "size-boundary-16MiB"))
+    # just below 16 MiB with a compressible body and a LITERAL tail (seeded C09-5: the LZ13 wrapper value = max_lead +
+    # simulated stream size exceeds 0xFFFFFF there although the input is in scope): zeros + 200 distinct bytes (total
+    # 0xFFFFF0), zeros + 2000 random bytes ending at 2^24-1
+    tail200 = bytes(range(1, 201))
+    cases.append(Case("%s 0 %s+%s" % (kind, ptok(0xFFFFF0 - 200, b"\0"), hexb(tail200)), "size-boundary-16MiB-literal-tail"))
+    cases.append(Case("%s 0 %s+%s" % (kind, ptok((1 << 24) - 1 - 2000, bytes([rng.getrandbits(8)])), hexb(rand_bytes(rng, 2000))),
+                      "size-boundary-16MiB-literal-tail"))
+    # an incompressible prefix of more than 64 KiB followed by a run longer than two maximal matches (seeded C09-6: the
+    # wrapper value computed by calculate_lz13_header - unbounded matches - is then smaller than the stream the compressor
+    # writes with matches capped at 0x1000; a debug_assert on that "invariant" panics in debug builds only)
+    for npre, nrun in (((68000, 8300), (75000, 13000)) if tier == "quick" else ((68000, 8300), (72000, 9000), (80000, 13000), (66000, 20000))):
+        cases.append(Case("%s 0 %s+%s" % (kind, hexb(rand_bytes(rng, npre)), ptok(nrun, bytes([rng.getrandbits(8)]))), "noise-then-long-run"))
+    # F21: LZ10 compress must REJECT 2^24 bytes and more (Err(InputTooLarge)); compared with the model too (flag 1: the
+    # model's guard answers before anything is computed)
+    if kind == "lz10c":
+        for n, pat in ((1 << 24, bytes([rng.getrandbits(8)])), ((1 << 24) + 5, b"\x41\x42")):
+            cases.append(Case("lz10c 1 %s" % ptok(n, pat), "size-limit-F21"))
+            cases.append(Case("lz10f 1 %s" % ptok(n, pat), "size-limit-F21"))
     # the same entry points through the enum CompressionFormat (kind lz10f / lz13f): a slice of the family
     fkind = kind[:-1] + "f"
     for b in small_alphabet_exhaustive((0x61, 0x62), 7 if tier == "quick" else 10):
@@ -563,7 +583,20 @@ def spread_heavy(cases, weight=lambda c: len(c.line)):
 
 
 def shrink_ptok(tok):
-    """Shrink candidates of a compact P<len>:<pattern> input: shorter lengths, same pattern (tokens, not bytes)."""
+    """Shrink candidates of a compact P<len>:<pattern> input: shorter lengths, same pattern (tokens, not bytes);
+    of a concatenation: one segment dropped, or one P segment shortened."""
+    if "+" in tok:
+        segs = tok.split("+")
+        for i in range(len(segs)):
+            rest = segs[:i] + segs[i + 1:]
+            yield "+".join(rest) if len(rest) > 1 else rest[0]
+        for i, sg in enumerate(segs):
+            if sg[0] == "P":
+                for t in shrink_ptok(sg):
+                    yield "+".join(segs[:i] + [t] + segs[i + 1:])
+        return
+    if tok[0] != "P":
+        return
     n, pat = tok[1:].split(":", 1)
     n = int(n)
     for k in (n // 2, n - 65536, n - 4096, n - 18, n - 2, n - 1):
